@@ -312,6 +312,8 @@ def _destruction(prog, chk, R, ex):
                 any(lp['k'] == 'forrange' and _mentions(lp['range'], lambda x: x.get('k') == 'member' and x.get('name') == 'destructorDecl' and _ref_is(x.get('base'), cur))
                     for lp in SX.walk(outer['body'], into_lambdas=False) if lp['k'] == 'forrange' and any(y is c.e for y in SX.walk(lp['body'], into_lambdas=False)))
             ctx = [n for n, l, r, op in g.writes() if SX.is_this_member(SX.strip(l), 'm_currentClassCtx') and _ref_is(r, cur)]
+            from ..kguard import virtual_writes
+            ctx += [n for n, m_, v_, rst in virtual_writes(prog, f, g) if m_ == 'm_currentClassCtx' and _ref_is(v_, cur)]
             ok = src_ok and bool(ctx) and g.must_precede(set(ctx), c)
             chk.ob('R08.2', f, c.ln or f.ln, ok, 'each level executes that level\'s destructor body, in that level\'s class context', key='dtor:level-body')
     rel = [c for c in g.calls(lambda e: e['k'] == 'mcall' and SX.short(e.get('callee', '')) in ('releaseQubit',))]
@@ -529,6 +531,8 @@ def _this_stamps(prog, chk, R, ex):
                 if items and SX.strip(items[0]).get('k') == 'ref':
                     binds.append((nn, SX.strip(items[0])))
         ctxw = [(nn, SX.strip(r)) for nn, l, r, op in g.writes() if SX.is_this_member(SX.strip(l), 'm_currentClassCtx')]
+        from ..kguard import virtual_writes
+        ctxw += [(nn, SX.strip(v_)) for nn, m_, v_, rst in virtual_writes(prog, f, g) if m_ == 'm_currentClassCtx']
         for bn, tv in binds:
             n += 1
             stamps = [(nn, SX.strip(r)) for nn, l, r, op in g.writes() if _member_of(l, 'className', tv.get('id')) and g.dominates(nn, bn)]
@@ -556,6 +560,8 @@ def _class_context(prog, chk, R, ex):
     mp = f.params[0]['id']
     execs = [c for c in g.calls(lambda e: e['k'] == 'mcall' and e.get('callee') == ex.name)]
     ws = [(n, SX.strip(r)) for n, l, r, op in g.writes() if SX.is_this_member(SX.strip(l), 'm_currentClassCtx')]
+    from ..kguard import virtual_writes
+    ws += [(n, SX.strip(v_)) for n, m_, v_, rst in virtual_writes(prog, f, g) if m_ == 'm_currentClassCtx']
     entry = [(n, r) for n, r in ws if execs and all(g.must_precede({n}, c) for c in execs)]
     chk.count('class-context assignments before a method body', len(entry), 1)
     for n, r in entry:
